@@ -166,8 +166,14 @@ func Now() Time { mu.Lock(); defer mu.Unlock(); return now }
 func Since(t Time) Duration { return Now().Sub(t) }
 func Until(t Time) Duration { return t.Sub(Now()) }
 
+// OnSleep, when set, is called synchronously (on the sleeping goroutine) before a Sleep elapses.
+var OnSleep func(d Duration)
+
 func Sleep(d Duration) {
 	emit(Event{Kind: "sleep", D: d})
+	if f := OnSleep; f != nil {
+		f(d)
+	}
 	if AutoSleep && d > 0 {
 		Advance(d)
 	}
